@@ -450,6 +450,65 @@ func specHistories(depth int, fullMask bool) seqmc.Spec {
 	}}
 }
 
+// (e) populations: MANY clients registered at once - every subset of a 3x3 grid
+// of queries d/{x,y,z}/{1,2,3} plus (optionally) clients at d/x, d/* and d, each
+// its own client - and one update at every path of a set that ends above, at and
+// below them, with wildcards. Every client is invoked exactly once iff the
+// relation holds, through Update and through UpdateOnce.
+func specPopulations() seqmc.Spec {
+	var grid [][]string
+	for _, a := range []string{"x", "y", "z"} {
+		for _, b := range []string{"1", "2", "3"} {
+			grid = append(grid, []string{"d", a, b})
+		}
+	}
+	extra := [][]string{{"d", "x"}, {"d", "*"}, {"d"}}
+	paths := [][]string{{}, {"d"}, {"*"}, {"d", "x"}, {"d", "*"}, {"d", "y"}, {"d", "x", "1"}, {"d", "*", "2"}, {"*", "*", "*"}, {"d", "z", "3", "deep"}, {"e"}}
+	n := (1 << uint(len(grid))) * 2 * len(paths)
+	return seqmc.Spec{Name: fmt.Sprintf("populations: every subset of 9 sibling queries d/{x,y,z}/{1,2,3} (x with/without 3 clients above them), each its own client, x %d update paths ending above / at / below them", len(paths)), N: n, Run: func(i int) (string, bool, []seqmc.Violation) {
+		p := paths[i%len(paths)]
+		i /= len(paths)
+		withExtra := i%2 == 1
+		mask := i / 2
+		m := match.New()
+		var qs [][]string
+		for k, q := range grid {
+			if mask>>uint(k)&1 == 1 {
+				qs = append(qs, q)
+			}
+		}
+		if withExtra {
+			qs = append(qs, extra...)
+		}
+		cs := make([]*counter, len(qs))
+		for k, q := range qs {
+			cs[k] = &counter{}
+			m.AddQuery(q, cs[k])
+		}
+		desc := fmt.Sprintf("queries=%v update at %v", qs, p)
+		for _, once := range []bool{false, true} {
+			for _, c := range cs {
+				c.n = 0
+			}
+			if once {
+				m.UpdateOnce("n", p, map[match.Client]struct{}{})
+			} else {
+				m.Update("n", p)
+			}
+			for k, q := range qs {
+				want := 0
+				if rel(q, p) {
+					want = 1
+				}
+				if cs[k].n != want {
+					return desc, true, vio("population", "with clients registered at %v, an update at %v (UpdateOnce=%v) invoked the client at %v %d times; the statement says %d", qs, p, once, q, cs[k].n, want)
+				}
+			}
+		}
+		return desc, len(qs) > 1, nil
+	}}
+}
+
 type harness struct{}
 
 func (harness) Property() string { return "C06" }
@@ -458,7 +517,7 @@ func (harness) Specs(tier string) []seqmc.Spec {
 	if tier == "thorough" {
 		n = 5
 	}
-	return []seqmc.Spec{specRelation(n), specContainTree(n), specContainGNMI(), specOnce(), specHistories(30, tier == "thorough")}
+	return []seqmc.Spec{specRelation(n), specContainTree(n), specContainGNMI(), specOnce(), specHistories(30, tier == "thorough"), specPopulations()}
 }
 
 func main() { seqmc.Main(harness{}) }
